@@ -213,6 +213,30 @@ def check_case(r, s, rng, fmt):
                 if w not in alt_s:
                     bad('colon-led-body-line-lost', 'the body line %r after the metadata block is missing from the snippet' % lead[:30], core.show(alt_s, 300))
         r.stats['relation6_checked'] += 1
+    # (7) the MMD Header / MMD Footer mechanism (what the command line tool runs before converting) acts on those two keys only: other keys,
+    #     however similar their names, leave the text alone; and when present, the values are put before / after the body exactly once
+    if rng.random() < 0.3:
+        near = rng.sample(['MMD', 'M', 'MMD Head', 'MMD Foot', 'MMD Headers', 'MMDHeaderX', 'Header', 'Footer', 'MMD Footer Note', 'mmd', 'MMD-Header', 'X MMD Header'], rng.randint(1, 3))
+        pr = [(k, 'near%d value' % j) for j, k in enumerate(near)] + neutral_pairs(rng, rng.randint(0, 2))
+        rng.shuffle(pr)
+        t7 = meta_block(pr) + body
+        rep = s.call('asan', 'HEADFOOT', 0, 0, 0, 0, [t7], crash_is_violation=False)
+        r.evaluations += 1
+        r.stats['relation7_checked'] += 1
+        if rep is not None and rep.status == 0 and rep.out != t7:
+            r.violate('header-footer-pass-changes-text:similar-key', 'mmd_prepend_mmd_header/append_mmd_footer changed a text that has no MMD Header/Footer key (keys: %s)' % [k for k, _ in pr],
+                      dict(requests=[D.req_to_json('asan', 'HEADFOOT', 0, 0, 0, 0, [t7])]), first_diff(t7, rep.out))
+        hv, fv = 'HEADV%d' % rng.randint(100, 999), 'FOOTV%d' % rng.randint(100, 999)
+        pr2 = pr + [('MMD Header', hv), ('MMD Footer', fv)]
+        rng.shuffle(pr2)
+        t8 = meta_block(pr2) + body
+        rep = s.call('asan', 'HEADFOOT', 0, 0, 0, 0, [t8], crash_is_violation=False)
+        r.evaluations += 1
+        if rep is not None and rep.status == 0:
+            o = rep.out
+            if o.count(hv.encode()) != 2 or o.count(fv.encode()) != 2 or any(o.count(('near%d value' % j).encode()) != 1 for j in range(len(near))):
+                r.violate('header-footer-pass:wrong-insertion', 'with MMD Header=%s and MMD Footer=%s the pass must add each value once (and nothing else): counts %d / %d' % (hv, fv, o.count(hv.encode()) - 1, o.count(fv.encode()) - 1),
+                          dict(requests=[D.req_to_json('asan', 'HEADFOOT', 0, 0, 0, 0, [t8])]), core.show(o, 500))
     if len(body) > 40:
         r.distinct.add(core.h64(src, fmt, base))
     r.sets['metadata_kinds'].add(kind)
